@@ -1,4 +1,28 @@
-(** C07 — model of nitrogql's parser front end: pest on the translated grammar. (Builder in Builder.v.) *)
-From V Require Import Base.Util Peg.Peg Gen.C07_grammar_gen.
+(** C07 — model of nitrogql's parser (crates/parser/src/parser/mod.rs): pest on the translated grammar
+    (Peg.v over Gen/C07_grammar_gen.v) followed by the builder (Builder.v).  Definitions only. *)
+From V Require Import Base.Util Gql.Ast Peg.Peg Gen.C07_grammar_gen C07.Builder.
 
+(** RawParser::parse(rule, text): the pair tree, [Fail] = Err(pest error), [OutOfFuel] never for the
+    fuel chosen in Peg.default_fuel (checked on every correspondence case) *)
 Definition parse_pairs (start : rule) (inp : str) : outcome (list (pair rule)) := parse gql_grammar start inp.
+
+Inductive presult (A : Type) := POk (x : A) | PErr | PPanic (k : N) | PFuel.
+Arguments POk {A}. Arguments PErr {A}. Arguments PPanic {A}. Arguments PFuel {A}.
+
+Definition of_bres {A} (r : bres A) : presult A :=
+  match r with BOk x => POk x | BPanic k => PPanic k end.
+
+(** parse_operation_document / parse_type_system_document; [file] is ast::current_file's thread-local *)
+Definition parse_operation_document (file : N) (inp : str) : presult opdoc :=
+  match parse_pairs R_ExecutableDocument inp with
+  | Ok ps => of_bres (build_operation_document inp file ps)
+  | Fail => PErr
+  | OutOfFuel => PFuel
+  end.
+
+Definition parse_type_system_document (file : N) (inp : str) : presult tsdoc :=
+  match parse_pairs R_TypeSystemExtensionDocument inp with
+  | Ok ps => of_bres (build_type_system_document inp file ps)
+  | Fail => PErr
+  | OutOfFuel => PFuel
+  end.
